@@ -33,12 +33,47 @@ func (g *Generator) Generate() error {
 		return fmt.Errorf("collecting global unwrap info: %w", err)
 	}
 
+	// The annotations of imported files are checked too. No code is generated for them here, but their
+	// messages travel through the code generated for the files that import them.
+	if err = g.validateImportedFiles(); err != nil {
+		return err
+	}
+
 	for _, file := range g.plugin.Files {
 		if !file.Generate {
 			continue
 		}
 		if err := g.generateFile(file); err != nil {
 			return err
+		}
+	}
+	return nil
+}
+
+// validateImportedFiles runs the annotation validators on every file of the request that is not itself
+// generated: a broken annotation there is reported like one in a generated file.
+func (g *Generator) validateImportedFiles() error {
+	for _, file := range g.plugin.Files {
+		if file.Generate {
+			continue
+		}
+		if err := collectFileUnwrapFields(file.Messages, NewGlobalUnwrapInfo()); err != nil {
+			return fmt.Errorf("file %s: %w", file.Desc.Path(), err)
+		}
+		if err := g.validateEnumAnnotationsInFile(file); err != nil {
+			return fmt.Errorf("enum annotation validation failed: %w", err)
+		}
+		for _, validate := range []func(*protogen.File) error{
+			validateNullableAnnotations,
+			validateEmptyBehaviorAnnotations,
+			validateTimestampFormatAnnotations,
+			validateBytesEncodingAnnotations,
+			validateFlattenAnnotations,
+			validateOneofDiscriminatorAnnotations,
+		} {
+			if err := validate(file); err != nil {
+				return err
+			}
 		}
 	}
 	return nil
